@@ -201,10 +201,12 @@ from .c11_e2e import SADUMP_CPU      # register block the SADUMP writer wants
 
 
 def gen_sadump(rng, d, tag):
+    """single partition, media backup, or a 2-4 disk set whose files are passed in a random
+    order (disk #1, which holds the headers and both bitmaps, is often not first)."""
     bs = 4096
     k = rng.random()
     cap1 = bs * 8
-    maxm = cap1 if k < 0.2 else cap1 - 1 if k < 0.3 else cap1 + 1 if k < 0.4 else rng.choice([16, 24, 40, 64, 100, 300])
+    maxm = cap1 if k < 0.15 else cap1 - 1 if k < 0.22 else cap1 + 1 if k < 0.3 else rng.choice([16, 24, 40, 64, 100, 300])
     pages = pick_pages(rng, maxm, [0, maxm, 8, 32])[:50]
     kinds = {p: ("exclude" if rng.random() < 0.3 else "dump") for p in pages}
     data = []
@@ -215,25 +217,80 @@ def gen_sadump(rng, d, tag):
         else:
             data.append("@0x%x exclude" % (p * bs))
     data.append(SADUMP_CPU)
-    dpath = os.path.join(d, tag + ".data")
-    with open(dpath, "w") as f:
-        f.write("\n".join(data) + "\n")
+    stored_p = [p for p in pages if kinds[p] == "dump"]
+    stored = runs_of(stored_p)
+    ram = runs_of(pages)
     base = ("block_size = %d\nmax_mapnr = 0x%x\nnr_cpus = 1\ntimestamp = 2024-02-03 04:05:06\n"
             "system_id = 00112233-4455-6677-8899-aabbccddeeff\ndisk_set_id = 0f1e2d3c-4b5a-6978-8796-a5b4c3d2e1f0\n"
-            "DATA = %s\n" % (bs, maxm, dpath))
-    path = os.path.join(d, tag)
-    tool("mksadump", path, base + "type = single\n")
-    stored = runs_of([p for p in pages if kinds[p] == "dump"])
-    ram = runs_of(pages)
-    ops = make_ops(rng, stored, ram, maxm, 1 << 40)
-    # model input: the dump header fields and the two bitmaps as the file has them
-    raw = open(path, "rb").read()
-    hdr_pos = bs                                   # single partition: block 0 is the partition header
-    sub, bb, db = struct.unpack("<III", raw[hdr_pos + 48:hdr_pos + 60])
+            % (bs, maxm))
+    kind = rng.choice(["single", "single", "media", "set", "set", "set"])
+    if kind == "set" and len(stored_p) < 2:
+        kind = "single"
+    dpath = os.path.join(d, tag + ".data")
+    if kind != "set":
+        with open(dpath, "w") as f:
+            f.write("\n".join(data) + "\n")
+        path = os.path.join(d, tag)
+        tool("mksadump", path, base + "DATA = %s\ntype = %s\n" % (dpath, kind))
+        paths, nums = [path], [1]
+    else:
+        ndisk = rng.randint(2, min(4, len(stored_p)))
+        # inclusive PFN windows: cut so that every disk holds at least one stored page
+        cutidx = sorted(rng.sample(range(1, len(stored_p)), ndisk - 1))
+        bounds = [0] + [stored_p[i] if rng.random() < 0.5 else rng.randint(stored_p[i - 1] + 1, stored_p[i])
+                        for i in cutidx] + [maxm]
+        wins = [(bounds[i], bounds[i + 1] - 1) for i in range(ndisk)]
+        salt = rng.randrange(1, 0x0fffffff)
+        vols = ["%08x-%04x-%04x-%04x-%012x" % (0xa0000000 + salt, i + 1, 0x4001 + i, 0x8000 + salt % 0x1000,
+                                               0x112233440000 + 257 * (i + 1) + salt) for i in range(ndisk)]
+        tb = ["@volume"]
+        for v in vols:
+            hx = v.replace("-", "")
+            tb.append(" ".join(hx[i:i + 2] for i in range(0, 32, 2)) + " 00*16")
+        with open(dpath, "w") as f:
+            f.write("\n".join(data) + "\n" + "\n".join(tb) + "\n")
+        members = []
+        for i, (first, last) in enumerate(wins):
+            path = os.path.join(d, "%s.%d" % (tag, i + 1))
+            tool("mksadump", path, base + "DATA = %s\ntype = diskset\ndisk_num = %d\nset_disk_set = %d\n"
+                 "volume_id = %s\nfirst_pfn = %d\nlast_pfn = %d\n" % (dpath, ndisk, i + 1, vols[i], first, last))
+            members.append(path)
+        order = list(range(ndisk))
+        rng.shuffle(order)
+        if rng.random() < 0.6 and order[0] == 0:            # disk #1 not first, most of the time
+            j = rng.randrange(1, ndisk)
+            order[0], order[j] = order[j], order[0]
+        paths = [members[i] for i in order]
+        nums = [i + 1 for i in order]
+    # model input: header fields of disk #1 and, of every file in the order given, the bytes
+    # where disk #1 keeps its bitmaps (the header part is not needed: zeroes)
+    d1 = open(paths[nums.index(1)], "rb").read()
+    hdr_pos = next(o for o in range(bs if kind == "single" else 2 * bs, len(d1), bs)
+                   if d1[o:o + 8] == b"sadump\0\0")
+    sub, bb, db = struct.unpack("<III", d1[hdr_pos + 48:hdr_pos + 60])
     mem_off = hdr_pos + bs * (1 + sub)
-    area = raw[mem_off:mem_off + bs * (bb + db)]
-    model = "s %x:%x:%x:%x:%x:%x A=%s" % (bs, sub, bb, db, maxm, hdr_pos, rle(area))
-    return "E %s T %s;%s @ %s | %s" % (model, runs_str(stored), runs_str(ram), path, " ".join(ops))
+    areas = []
+    for pth in paths:
+        raw = open(pth, "rb").read()
+        a = raw[mem_off:mem_off + bs * (bb + db)]
+        a += bytes(bs * (bb + db) - len(a))
+        areas.append("00*%x,%s" % (mem_off, rle(a)))
+    model = "s %x:%x:%x:%x:%x:%x N=%s A=%s" % (bs, sub, bb, db, maxm, hdr_pos,
+                                               ".".join("%x" % n for n in nums), ";".join(areas))
+    ops = make_ops(rng, stored, ram, maxm, 1 << 40)
+    # memory.pagemap is built at its first query: first, last, or through a clone
+    mops = [o for o in ops if o[0] == "M"]
+    if mops:
+        r = rng.random()
+        rest = [o for o in ops if o[0] != "M"]
+        if r < 0.3:
+            ops = mops + rest
+        elif r < 0.6:
+            ops = rest + mops
+        elif r < 0.8:
+            ops = ["C" + mops[0]] + rest + mops[1:]
+        ops += ["C" + o for o in rng.sample(ops, min(4, len(ops))) if o[0] in "FM"]
+    return "E %s T %s;%s @ %s | %s" % (model, runs_str(stored), runs_str(ram), ",".join(paths), " ".join(ops))
 
 
 # -- ELF ----------------------------------------------------------------------
@@ -272,9 +329,9 @@ def gen_elf(rng, d, tag):
 
 
 def gen_case(rng, d, i, fmt=None):
-    k = rng.random() if fmt is None else {"d": 0.0, "s": 0.7, "e": 0.9}[fmt]
+    k = rng.random() if fmt is None else {"d": 0.0, "s": 0.6, "e": 0.9}[fmt]
     tag = "c%d" % i
-    if k < 0.6:
+    if k < 0.5:
         return gen_diskdump(rng, d, tag)
     if k < 0.78:
         return gen_sadump(rng, d, tag)
